@@ -441,9 +441,23 @@ static void t_apply(int op, int check)
         const void *s = t_sched(&slen, &rounds);
         Skinny128TweakedKey_t f128; Skinny64TweakedKey_t f64; const void *fresh;
         int want_rounds = t_c == CK_S128 ? (TW.klen == 16 ? 48 : 56) : (TW.klen == 8 ? 36 : 40);
-        if (t_c == CK_S128) { memset(&f128, PRIOR_BYTE, sizeof(f128)); skinny128_set_tweaked_key(&f128, KEYS[TW.ki], (unsigned)TW.klen); skinny128_set_tweak(&f128, TW.tweak, 16); fresh = &f128; }
-        else { memset(&f64, PRIOR_BYTE, sizeof(f64)); skinny64_set_tweaked_key(&f64, KEYS[TW.ki], (unsigned)TW.klen); skinny64_set_tweak(&f64, TW.tweak, 8); fresh = &f64; }
-        il = t_defined_image(s, img); fl = t_defined_image(fresh, fimg);
+        /* the fresh image depends only on (cipher, key, length, tweak): computed once per target state */
+        {
+            static struct { uint64_t h; uint16_t len; uint8_t img[480]; } *fc; const size_t FN = 1u << 14;
+            uint8_t kb[24]; uint64_t h; size_t slot;
+            if (!fc) fc = calloc(FN, sizeof(*fc));
+            kb[0] = (uint8_t)t_c; kb[1] = (uint8_t)TW.ki; kb[2] = (uint8_t)TW.klen; kb[3] = 0x77; memcpy(kb + 4, TW.tweak, 16); memset(kb + 20, 0x3C, 4);
+            h = fnv1a(kb, sizeof(kb), FNV_INIT); h ^= fnv1a(kb, sizeof(kb), 0x9ae16a3b2f90404fULL) << 1; if (!h) h = 1;
+            slot = (size_t)(h >> 9) & (FN - 1);
+            if (fc && fc[slot].h == h) { fl = fc[slot].len; memcpy(fimg, fc[slot].img, fl); }
+            else {
+                if (t_c == CK_S128) { memset(&f128, PRIOR_BYTE, sizeof(f128)); skinny128_set_tweaked_key(&f128, KEYS[TW.ki], (unsigned)TW.klen); skinny128_set_tweak(&f128, TW.tweak, 16); fresh = &f128; }
+                else { memset(&f64, PRIOR_BYTE, sizeof(f64)); skinny64_set_tweaked_key(&f64, KEYS[TW.ki], (unsigned)TW.klen); skinny64_set_tweak(&f64, TW.tweak, 8); fresh = &f64; }
+                fl = t_defined_image(fresh, fimg);
+                if (fc && fl <= sizeof(fc[slot].img)) { fc[slot].h = h; fc[slot].len = (uint16_t)fl; memcpy(fc[slot].img, fimg, fl); }
+            }
+        }
+        il = t_defined_image(s, img);
         if (rounds != want_rounds) t_report("round-count", op, "schedule has %d rounds, specification says %d for this tweakey size", rounds, want_rounds);
         if (il != fl || memcmp(img, fimg, il) != 0)
             t_report("depends-on-history", op, "schedule differs from a fresh set_tweaked_key + set_tweak(last tweak %s)", hexs(TW.tweak, (size_t)t_bs));
